@@ -372,6 +372,16 @@ def run(ctx: Ctx) -> int:
         why_bad="namespace_to_dict writes into the namespace it was given",
     )
 
+    # `key in ns` answers False for any key that cannot be resolved - it never raises.  Walking a dotted key through a
+    # dict value raises the dict's own KeyError (not the library's NSKeyError subclass), so the handler names KeyError
+    cont = ctx.func("_namespace:Namespace.__contains__")
+    from .util import handler_type_names
+
+    hs_ = [h for t in walk_local(cont) if isinstance(t, ast.Try) for h in t.handlers]
+    names_ = {n.split(".")[-1] for h in hs_ for n in (handler_type_names(h) if h.type is not None else ["BaseException"])}
+    ok = bool(hs_) and bool(names_ & {"KeyError", "LookupError", "Exception", "BaseException"})
+    ctx.oblige("C11.b", ok, hs_[0] if hs_ else cont, "__contains__ turns every KeyError of the key walk into False" if ok else f"__contains__ only catches {sorted(names_)}: a key that steps through a dict value (`'opts.copy.x' in ns`) raises the dict's plain KeyError instead of answering False", fn=cont, construct="contains never raises")
+
     # ---------------- C11.d ---------------------------------------------------
     # as_dict converts containers element for element: no comprehension in it filters elements away, and a list /
     # dict is only converted when ALL its elements are namespaces (mixed containers are left as they are)
